@@ -21,7 +21,9 @@ type subscriptionEntry struct {
 	originalPlan *planner.QueryPlan
 	isClosed     bool
 
-	closeCh        chan struct{}
+	closeCh chan struct{}
+	// doneCh is closed when Listen has returned
+	doneCh         chan struct{}
 	queryerCloseCh chan struct{}
 	respCh         chan *requests.Response
 	executorFn     func(map[string]interface{}) (map[string]interface{}, error)
@@ -33,6 +35,7 @@ func (g *Gateway) newSubscriptionEntry(id string, ctx *planner.PlanningContext) 
 	subEntry := &subscriptionEntry{
 		id:             id,
 		closeCh:        make(chan struct{}),
+		doneCh:         make(chan struct{}),
 		queryerCloseCh: make(chan struct{}),
 		respCh:         make(chan *requests.Response),
 	}
@@ -128,7 +131,7 @@ func (se *subscriptionEntry) prepareResponse(resp *requests.Response) *requests.
 
 func (se *subscriptionEntry) Close() {
 	verifhook.At("se.Close.enter")
-	se.TryLock()
+	se.Lock()
 	verifhook.At("se.Close.afterTryLock")
 	isClosed := se.isClosed
 	se.Unlock()
@@ -137,20 +140,25 @@ func (se *subscriptionEntry) Close() {
 		return
 	}
 	verifhook.At("se.Close.beforeSend")
-	se.closeCh <- struct{}{}
+	// Listen can return on its own (upstream done, write error) at any moment:
+	// never send on a channel it closes, and do not wait for a listener that is gone
+	select {
+	case se.closeCh <- struct{}{}:
+	case <-se.doneCh:
+	}
 	verifhook.At("se.Close.afterSend")
 }
 
 func (se *subscriptionEntry) Listen(conn net.Conn) {
 	defer func() {
 		verifhook.At("se.Listen.deferEnter")
+		close(se.doneCh)
 		se.queryerCloseCh <- struct{}{}
 		verifhook.At("se.Listen.beforeLock")
 		se.Lock()
 		defer se.Unlock()
 		verifhook.At("se.Listen.beforeCloseChannels")
 		close(se.queryerCloseCh)
-		close(se.closeCh)
 		close(se.respCh)
 		se.isClosed = true
 		verifhook.At("se.Listen.closed")
